@@ -246,7 +246,7 @@ def gen_behaviours(profile, seed, count, length, path):
 SDEV = ("F7", "F12")   # deviations of the concurrent cache from the intended design still present in /repo
 
 
-def trace_check(wd, name, trace, props, nkeys, layer_i=True, period=1280, timeout=900, dev=(), sdev=SDEV):
+def trace_check(wd, name, trace, props, nkeys, layer_i=True, period=1280, timeout=900, dev=(), sdev=SDEV, quiet=False):
     """Validates a recorded trace file. Returns dict with viol (list of (prop,bid,line)),
     drift (list of (bid,line)), stats."""
     cfg = os.path.join(wd, name + ".cfg")
@@ -271,8 +271,64 @@ def trace_check(wd, name, trace, props, nkeys, layer_i=True, period=1280, timeou
     if not done or res["stats"] is None:
         m = re.search(r"Error: (.*)", txt)
         raise ToolError("trace validation failed (%s): %s" % (outp, m.group(1) if m else "no STATS line"))
-    log("[trace] %-24s %6d events %4d behaviours  viol=%d drift=%d  %.1fs" % (
-        name, res["stats"]["events"], res["stats"]["behaviours"], len(res["viol"]), len(res["drift"]), wall))
+    if not quiet:
+        log("[trace] %-24s %6d events %4d behaviours  viol=%d drift=%d  %.1fs" % (
+            name, res["stats"]["events"], res["stats"]["behaviours"], len(res["viol"]), len(res["drift"]), wall))
+    return res
+
+
+def trace_check_par(wd, name, trace, props, nkeys, layer_i=True, parts=8, min_events=1500, **kw):
+    """trace_check on a trace split at behaviour boundaries into up to `parts` files validated by
+    concurrent TLC runs (one worker each); line numbers refer to the whole trace."""
+    with open(trace) as f:
+        lines = f.readlines()
+    starts = [i for i, l in enumerate(lines) if '"ev":"Config"' in l or '"ev": "Config"' in l]
+    n = max(1, min(parts, len(lines) // max(1, min_events)))
+    if n <= 1 or len(starts) < 2:
+        return trace_check(wd, name, trace, props, nkeys, layer_i=layer_i, **kw)
+    target = len(lines) / n
+    cuts = [0]
+    for st in starts[1:]:
+        if st - cuts[-1] >= target and len(cuts) < n:
+            cuts.append(st)
+    cuts.append(len(lines))
+    import concurrent.futures
+    jobs = []
+    for j in range(len(cuts) - 1):
+        part = "%s.part%d" % (trace, j)
+        with open(part, "w") as g:
+            g.writelines(lines[cuts[j]:cuts[j + 1]])
+        jobs.append((j, part, cuts[j]))
+    def one(job):
+        j, part, off = job
+        return j, off, trace_check(wd, "%s_p%d" % (name, j), part, props, nkeys, layer_i=layer_i, quiet=True, **kw)
+    t0 = time.time()
+    try:
+        with concurrent.futures.ThreadPoolExecutor(max_workers=len(jobs)) as ex:
+            outs = list(ex.map(one, jobs))
+    finally:
+        for _, part, _ in jobs:
+            if os.path.exists(part):
+                os.remove(part)
+    res = {"viol": [], "drift": [], "stats": None, "wall_s": round(time.time() - t0, 1), "out": None}
+    for j, off, r in sorted(outs, key=lambda x: x[0]):
+        res["viol"] += [(p_, b, l + off) for (p_, b, l) in r["viol"]]
+        res["drift"] += [(b, l + off) for (b, l) in r["drift"]]
+        st = r["stats"]
+        if res["stats"] is None:
+            res["stats"] = st
+        else:
+            for k, v in st.items():
+                if isinstance(v, dict):
+                    for kk, vv in v.items():
+                        res["stats"][k][kk] = res["stats"][k].get(kk, 0) + vv
+                else:
+                    res["stats"][k] += v
+        if os.path.exists(r["out"]):
+            os.remove(r["out"])
+    log("[trace] %-24s %6d events %4d behaviours  viol=%d drift=%d  %.1fs (%d parallel parts)" % (
+        name, res["stats"]["events"], res["stats"]["behaviours"], len(res["viol"]), len(res["drift"]),
+        res["wall_s"], len(jobs)))
     return res
 
 
